@@ -10,6 +10,7 @@ ATTR = [
  ("fix: Delay busy-looped", ["C09"]),
  ("fix: Delay copied input samples before", ["C08", "C10"]),
  ("fix: Delay was retired at end of input", ["C05", "C06"]),
+ ("fix: Delay::set_delay panicked or mis-sized", ["C10"]),
  ("fix: RationalResampler output depended", ["C08", "C10"]),
  ("fix: AuDecode decoded the rest", ["C14"]),
  ("fix: AuDecode panicked", ["C15"]),
